@@ -101,10 +101,17 @@ func ReceiveFeedback(item *models.Item) error {
 	}
 
 	item.SetSource(models.ItemSourceFeedback)
-	_, loaded := globalReactor.stateTable.Swap(item.GetID(), item)
-	if !loaded {
-		// An item sent to the feedback channel should be present on the state table, if not present reactor should error out
-		return ErrFeedbackItemNotPresent
+	// An item sent to the feedback channel should be present on the state table, if not present reactor should error out.
+	// The entry is only ever replaced, never created: Swap would leave an unknown item in the state table
+	// without a token, and a later MarkAsFinished of it would take another seed's token (or block forever).
+	for {
+		old, loaded := globalReactor.stateTable.Load(item.GetID())
+		if !loaded {
+			return ErrFeedbackItemNotPresent
+		}
+		if globalReactor.stateTable.CompareAndSwap(item.GetID(), old, item) {
+			break
+		}
 	}
 	select {
 	case <-globalReactor.ctx.Done():
